@@ -284,11 +284,15 @@ def gen_plan(r, tier, index):
         else:
             faults.append({"kind": "enospc", "pid": caught_partial, "op": "write", "nth": r.choice([2, 3, 4, 5]), "phase": "s0:body", "arg": r.randrange(7, 150)})
     if same_size is not None:
-        faults.append({"kind": "eio", "pid": procs[same_size]["pid"], "op": "write", "nth": 1, "phase": "s0:exit", "arg": 1})
+        # (every attempt of the closing flush fails: a close() that tries twice - once for a tail check, once in the stream's
+        # own close - must not turn the lost close into a late one)
+        for nth_ in (1, 2, 3):
+            faults.append({"kind": "eio", "pid": procs[same_size]["pid"], "op": "write", "nth": nth_, "phase": "s0:exit", "arg": 1})
     wsessions = [(pi, si) for pi, p in enumerate(procs) for si, s in enumerate(p["script"]) if s["kind"] == "w"]
     anysessions = [(pi, si) for pi, p in enumerate(procs) for si, s in enumerate(p["script"])]
     if ship_dirty is not None:
-        faults.append({"kind": "eio", "pid": procs[ship_dirty[0]]["pid"], "op": "write", "nth": 1, "phase": f"s{ship_dirty[1]}:exit", "arg": 1})
+        for nth_ in (1, 2, 3):
+            faults.append({"kind": "eio", "pid": procs[ship_dirty[0]]["pid"], "op": "write", "nth": nth_, "phase": f"s{ship_dirty[1]}:exit", "arg": 1})
     for _ in range(fault_budget):
         kind = r.choice(["user_exc", "user_exc", "encoder_exc", "dup_in_session", "io", "io", "io", "reader_exc"])
         if kind == "reader_exc":
